@@ -248,3 +248,26 @@ PROPERTIES["C16"] = {
                      "nano::idiv", "nano::iround", "nano::integral / integral_t<1..3>::get"]},
     ],
 }
+
+_C08_LIFT = {"engine": "lift", "name": "C08_index", "shim": "C08_shim.cpp", "driver": "C08_drv.c", "throws": ["_ZN4nano9critical0*"],
+             "lib_sources": ["src/dataset.cpp", "src/datasource/mask.cpp"],
+             "roots": ["k_setbit", "k_getbit", "k_optional", "k_iter", "k_check_samples", "k_check_feature"],
+             "quick": [{"func": "h_mask", "unwind": 5, "desc": "setbit/getbit on masks of 1..3 bytes, every sample index"},
+                       {"func": "h_optional", "unwind": 22, "desc": "optional(mask, samples) for 1..20 samples incl. non-multiples of 8"},
+                       {"func": "h_iter", "unwind": 8, "desc": "datasource_iterator: position, stored sample through the shuffle table, value, given bit"},
+                       {"func": "h_check_samples", "unwind": 6, "desc": "dataset_t::check(samples): lists of <=4 indices in [-3,19], N in 1..16"},
+                       {"func": "h_check_feature", "unwind": 3, "desc": "dataset_t::check(feature)"}],
+             "encoded": ["nano::setbit", "nano::getbit", "nano::optional(mask, samples)", "nano::base_datasource_iterator_t::sample / operator++", "nano::datasource_iterator_t<int32,1>::operator*",
+                         "nano::make_iterator", "nano::dataset_t::check(indices_cmap_t)", "nano::dataset_t::check(tensor_size_t)"]}
+_C08_LIFT["thorough"] = _C08_LIFT["quick"]
+PROPERTIES["C08"] = {
+    "level": "other",
+    "level_text": "LIFT-C unit: bounded model checking (CBMC) of the lifted mask / iterator / range-check code with all sample indices, list contents and mask bytes symbolic",
+    "level_note": LIFT_NOTE + "; dataset_t object fabricated field-by-field in the shim (check() only reads the sample and feature counts); nano::critical0<...> lowered to an exception flag",
+    "technique": LIFT_TECH,
+    "explanation": "C08: index-space clauses (bit masks, iterator -> stored sample mapping, rejection of out-of-range sample/feature indices).",
+    "assumptions": ["N <= 16 samples, lists of <= 4 indices (repetitions, any order), masks <= 3 bytes"],
+    "bounds": {"samples": "1..16 (masks up to 24 bits, optional() up to 20 samples)", "list length": "<= 4", "unwind": "3..22 with unwinding assertions"},
+    "outside": ["class counts > 3, 16 threads, schemas beyond the enumerated ones", "storage types other than float64 for symbolic cells"],
+    "units": [_C08_LIFT],
+}
